@@ -330,11 +330,12 @@ fn line_nodes(n: usize) -> Vec<(usize, i32, i32)> {
 }
 
 fn generate(rng: &mut Rng, tier: Tier, cases: &mut Vec<Case>) {
-    let scale = if tier == Tier::Quick { 1 } else { 8 };
+    let scale = if tier == Tier::Quick { 6 } else { 120 };
+    let big: u64 = if tier == Tier::Quick { 0 } else { 6 };
     // (1) whole grids with random deletions, distinct keys, every axis, every listed b
     for round in 0..3 * scale {
-        let w = 3 + rng.below(if round % 3 == 2 { 14 } else { 7 }) as usize;
-        let h = 2 + rng.below(if round % 3 == 2 { 10 } else { 6 }) as usize;
+        let w = 3 + rng.below(if round % 3 == 2 { 14 + big } else { 7 }) as usize;
+        let h = 2 + rng.below(if round % 3 == 2 { 10 + big } else { 6 }) as usize;
         let g = { let kn = 4 + rng.below(3); let dg = rng.chance(1, 3); grid(rng, w, h, kn, 6, dg) };
         for axis in 0..4 {
             let cs = coords_for(rng, &g, true, axis);
@@ -425,6 +426,39 @@ fn generate(rng: &mut Rng, tier: Tier, cases: &mut Vec<Case>) {
         let mut c = cell_of(&g, &cs, &ids, axis, b, BIG, rng);
         c.ncoords = 3.max(n) + rng.below(3) as usize;
         push_case(cases, "tiny", c);
+    }
+    // (9) dumbbells: two dense blocks joined by a narrow bridge, the long side along the chosen axis: the
+    //     contraction merges many parallel edges (capacity > 1) and the minimum cut is the bridge, away
+    //     from both contracted ends (the non-trivial regime of the property)
+    for round in 0..36 * scale {
+        let bw = 2 + rng.below(4) as usize; // block width
+        let h = 2 + rng.below(4) as usize;
+        let gap = 1 + rng.below(3) as usize; // bridge length
+        let w = 2 * bw + gap;
+        let mut g = { let dg = rng.chance(1, 3); grid(rng, w, h, 6, 6, dg) };
+        // keep only 1..2 rows of the bridge columns
+        let keep_rows: Vec<usize> = { let mut r: Vec<usize> = (0..h).collect(); rng.shuffle(&mut r); r.truncate(1 + rng.below(2) as usize); r };
+        g.edges.retain(|(a, b)| {
+            let (xa, ya, xb, yb) = (a % w, a / w, b % w, b / w);
+            let in_gap = |x: usize| x >= bw && x < bw + gap;
+            if in_gap(xa) || in_gap(xb) {
+                ya == yb && keep_rows.contains(&ya)
+            } else {
+                true
+            }
+        });
+        // axis 1 = lon = x direction for the distinct coordinates; axes 2, 3 are dominated by x or y as well
+        let axis = if round % 4 == 3 { rng.below(4) as usize } else { 1 };
+        let cs = coords_for(rng, &g, true, axis);
+        let mut ids: Vec<usize> = (0..w * h).collect();
+        if rng.chance(1, 3) {
+            // a sub-cell: drop one block column at the far end, its edges become edges to outside nodes
+            ids.retain(|i| i % w != w - 1);
+        }
+        rng.shuffle(&mut ids);
+        let b = *rng.pick(&[0.1, 0.25, 0.3, 0.2, 0.15]);
+        let c = cell_of(&g, &cs, &ids, axis, b, BIG, rng);
+        push_case(cases, "dumbbell", c);
     }
     // (7) cells whose contracted graph has no edge (D22, fixed): no edges at all, or all edges inside
     //     the two contracted ends, with isolated / self-looped middle nodes
